@@ -423,6 +423,9 @@ pub struct BadPt {
     /// the invalid (negative) value used
     #[serde(default)]
     value: Option<f64>,
+    /// start exactly at the generating parameters (the data are noise-free: the fit is already converged) instead of 0
+    #[serde(default)]
+    start_at_truth: bool,
 }
 pub struct Invalid;
 impl Check for Invalid {
@@ -431,7 +434,7 @@ impl Check for Invalid {
         "invalid-arguments"
     }
     fn rule(&self) -> String {
-        "negative tolerance / FD width / damping (six magnitudes from -1e-6 to -10 each) and mismatched xs,ys lengths, for both variants: must be Err (no panic, no parameters); signature = (which argument, value)".into()
+        "negative tolerance / FD width / damping (six magnitudes from -1e-6 to -10 each) and mismatched xs,ys lengths, for both variants, from a start at 0 and from a start that already fits: must be Err (no panic, no parameters); signature = (which argument, value)".into()
     }
     fn points(&self, _t: Tier) -> Vec<BadPt> {
         let mut v = vec![];
@@ -440,12 +443,14 @@ impl Check for Invalid {
                 if analytic && which == 1 {
                     continue; // curve_fit_jac has no FD width
                 }
-                if which <= 2 {
-                    for value in [-1e-6, -1e-3, -0.5, -1.0, -2.0, -10.0] {
-                        v.push(BadPt { which, analytic, value: Some(value) });
+                for start_at_truth in [false, true] {
+                    if which <= 2 {
+                        for value in [-1e-6, -1e-3, -0.5, -1.0, -2.0, -10.0] {
+                            v.push(BadPt { which, analytic, value: Some(value), start_at_truth });
+                        }
+                    } else {
+                        v.push(BadPt { which, analytic, value: None, start_at_truth });
                     }
-                } else {
-                    v.push(BadPt { which, analytic, value: None });
                 }
             }
         }
@@ -468,14 +473,14 @@ impl Check for Invalid {
                 yy.push(1.0);
             }
         }
-        let out = dispatch(&fp, &xs, &yy, &[0.0, 0.0], p.analytic, 100_000);
+        let out = dispatch(&fp, &xs, &yy, &if p.start_at_truth { [1.5, 0.7] } else { [0.0, 0.0] }, p.analytic, 100_000);
         let subject = if p.analytic { "optimize::curve_fit_jac" } else { "optimize::curve_fit" };
         let names = ["negative-tolerance", "negative-h", "negative-damping", "ys-shorter", "ys-longer"];
         match out.res {
             Ok(Err(_)) => {}
             other => o.viol(subject, "invalid-argument-err", format!("{} = {:?}: {:?}", names[p.which], p.value, other)),
         }
-        o.sig = format!("{}|{}|{:?}", names[p.which], p.analytic, p.value);
+        o.sig = format!("{}|{}|{:?}|{}", names[p.which], p.analytic, p.value, if p.start_at_truth { "start-at-truth" } else { "start-0" });
         o
     }
 }
